@@ -617,3 +617,80 @@ func genRowCount(t *rapid.T, lo, hi int, label string) int {
 	}
 	return rapid.IntRange(lo, hi).Draw(t, label)
 }
+
+// ------------------------------------------------------------------------------------------------
+// Scale: a small share of the cases run on a table far larger than the ordinary 0..40 rows, so that
+// strategies the engine only switches to beyond some size (chunked, batched or parallel processing of rows or
+// groups) are exercised on both sides of the switch, with row counts of every residue.
+//
+// The case keeps the few drawn rows plus a short recipe; Check expands it (a pure function of the case), so
+// large cases cost a handful of draws, stay small on disk and shrink quickly.
+
+type Scale struct {
+	Rows  int   `json:"rows"`  // size of the expanded table (200..700)
+	Block []int `json:"block"` // row i of the expanded table is a copy of drawn row Block[i mod len] (mod number of drawn rows)
+	// optionally one column is spread over many distinct values: the index into KeyPool starts at Start and
+	// advances from row to row by the cycle Steps (1 = round robin, 0 = runs, larger = keys first met out of
+	// pool order); rows whose drawn row holds NULL in / lacks the column keep that
+	KeyCol  string `json:"key_col,omitempty"`
+	KeyPool []any  `json:"key_pool,omitempty"`
+	Steps   []int  `json:"steps,omitempty"`
+	Start   int    `json:"start,omitempty"`
+}
+
+// genScale draws a large-table recipe for a small share of the cases; nil = ordinary table. rapid favours small
+// values and the ends of a range (IntRange(0, 49) yields 0 in 8% of the draws), hence a residue of a wide draw;
+// that is still not uniform: the measured share is about 0.55/oneIn (oneIn 20: 2.5%, 14: 4.3% of the cases).
+func genScale(t *rapid.T, oneIn int, label string) *Scale {
+	if rapid.IntRange(0, 1<<20).Draw(t, label+".large")%oneIn != oneIn-1 {
+		return nil
+	}
+	return &Scale{
+		Rows:  rapid.IntRange(200, 700).Draw(t, label+".rows"),
+		Block: rapid.SliceOfN(rapid.IntRange(0, 63), 1, 16).Draw(t, label+".block"),
+	}
+}
+
+// genKeys adds the spreading of column col over pool to the recipe.
+func (s *Scale) genKeys(t *rapid.T, col string, pool []any, label string) {
+	s.KeyCol, s.KeyPool = col, pool
+	s.Steps = rapid.SliceOfN(rapid.IntRange(0, len(pool)-1), 0, 5).Draw(t, label+".steps")
+	s.Steps = append(s.Steps, rapid.IntRange(1, len(pool)).Draw(t, label+".laststep")) // at least one step moves on
+	s.Start = rapid.IntRange(0, len(pool)-1).Draw(t, label+".start")
+}
+
+// Expand builds the large table from the drawn rows (every row a deep copy: no map occurs twice).
+func (s *Scale) Expand(base []any) []any {
+	if s == nil || len(base) == 0 || len(s.Block) == 0 {
+		return base
+	}
+	rows := make([]any, 0, s.Rows)
+	cur := s.Start
+	for i := 0; i < s.Rows; i++ {
+		r := val.Copy(base[s.Block[i%len(s.Block)]%len(base)])
+		if len(s.KeyPool) > 0 && len(s.Steps) > 0 {
+			if rm, ok := r.(map[string]any); ok {
+				if v, has := rm[s.KeyCol]; has && v != nil {
+					rm[s.KeyCol] = s.KeyPool[cur%len(s.KeyPool)]
+				}
+			}
+			cur = (cur + s.Steps[i%len(s.Steps)]) % len(s.KeyPool)
+		}
+		rows = append(rows, r)
+	}
+	return rows
+}
+
+// ExpandDoc returns doc with the named table expanded (doc itself when there is no recipe).
+func (s *Scale) ExpandDoc(doc map[string]any, table string) map[string]any {
+	base, ok := doc[table].([]any)
+	if s == nil || !ok || len(base) == 0 {
+		return doc
+	}
+	d := make(map[string]any, len(doc))
+	for k, v := range doc {
+		d[k] = v
+	}
+	d[table] = s.Expand(base)
+	return d
+}
